@@ -289,7 +289,7 @@ def run_unit(unit, rec):
                 rec.trans(6)
                 try:
                     g0 = float(dreye.compute_gamut(X, metric=metric, seed=1))
-                    gs = [float(dreye.compute_gamut(X * t, metric=metric, seed=1)) for t in (0.5, 3.0)]
+                    gs = [float(dreye.compute_gamut(X * t, metric=metric, seed=1)) for t in (0.5, 3.0, 1e-9, 1e-12, 1e6)]
                     grow = float(dreye.compute_gamut(X * (1 + 0.5 * np.arange(len(X)))[:, None], metric=metric, seed=1))
                     gself = float(dreye.compute_gamut(X, relative_to=X, metric=metric, seed=1))
                     sup = np.vstack([X, X.max(0) * np.eye(X.shape[1])[0] + 0.01, np.eye(X.shape[1])[-1]])
@@ -335,6 +335,14 @@ def run_unit(unit, rec):
                         _v(rec, "e", dict(sig, **exc_sig(e)), "compute_gamut raised %r" % (e,), case)
                         continue
                     rec.distinct(("est", m, n, np.ndim(ub), metric, at_l1, relative))
+                    if not relative and at_l1 is None:
+                        # absolute capture does not depend on the adaptational state or the baseline
+                        rec.trans(2)
+                        est2 = dreye.ReceptorEstimator(filters, domain=1.0, K=0.5 + 0.375 * np.arange(m), baseline=0.25 + 0.125 * np.arange(m))
+                        est2.register_system(sources, ub=ub)
+                        f2 = float(est2.compute_gamut(fraction=True, metric=metric, seed=2, relative=False))
+                        if abs(f2 - f) > 1e-9 * (1 + abs(f)):
+                            _v(rec, "e", dict(sig, what="absolute-fraction-depends-on-adaptation"), "fractional gamut in absolute capture changes with K / baseline (%.6g vs %.6g)" % (f2, f), case, observed=f2, expected=f)
                     ok = (0 < f <= 1 + 1e-9) or (at_l1 is not None and f == 0)
                     rec.outcome("fraction/%s" % ("ok" if ok else "bad"))
                     if not ok:
